@@ -40,6 +40,13 @@ func c06Scenarios(thorough bool) []pwScenario {
 				}
 			}
 		}
+		// an address a live pod holds disappears in the cloud; the sync marks it invalid; a later shrink must still leave it alone
+		{
+			c := pwCfg{V4: st.v4, V6: st.v6, Cap: 4, Batch: 2, MinIdle: 0, MaxIdle: 1, Slots: 1, Policy: daemon.EniSelectionPolicyMostIPs}
+			c.Pre = []pwPre{pre(4, 4, st, "secondary")}
+			// two pods hold addresses, two stay idle (one more than maxIdle): the shrink that follows the sync has something to do
+			out = append(out, pwScenario{Name: "B5-held-address-invalidated;shrink/" + st.name, Cfg: c, Threads: [][]pwOp{ops("add:a", "add:b", "rremoveheld:a", "rremoveheld:b", "lsync:0", "syncpool", "syncpool"), ops("lsync:0")}, After: ops("syncpool", "del:a", "del:b", "syncpool"), Budget: [4]int{d - 1, 0, 0, 0}})
+		}
 		// trunk and RDMA interfaces must never be deleted, whatever the balancer wants
 		for _, kind := range []string{"trunk", "erdma"} {
 			c := pwCfg{V4: st.v4, V6: st.v6, Cap: 3, Batch: 2, MinIdle: 0, MaxIdle: 0, Slots: 1, Policy: daemon.EniSelectionPolicyMostIPs}
@@ -62,7 +69,7 @@ func withStored(c pwCfg, pod string) pwCfg {
 func TestVerifC06(t *testing.T) {
 	r := ev.New("C06", "pool-quota-monitor")
 	defer r.Flush()
-	r.Rule("real eni.Manager/Local over the simulated factory; balancer-heavy scenarios B1-B4 (syncPool interleaved with ADD/DEL, repeated syncPool, shrink to zero with trunk/RDMA interfaces) x per-ENI cap {1,2,3} x batch {1,2} x (minIdle,maxIdle) x IP stack; all interleavings within the deviation budgets; oracle = monitor on the arguments of EVERY factory call against the ledger of live allocations at call time (assign: count on ENI + n <= cap, n <= batch; create: interfaces <= slots; unassign: not the primary, not held by a live pod; delete: not trunk/RDMA, no live address) plus the ack-time check that nothing handed out had been unassigned/deleted by the daemon")
+	r.Rule("real eni.Manager/Local over the simulated factory; balancer-heavy scenarios B1-B5 (syncPool interleaved with ADD/DEL, repeated syncPool, shrink to zero with trunk/RDMA interfaces, shrink after a held address was invalidated by the cloud sync) x per-ENI cap {1,2,3} x batch {1,2} x (minIdle,maxIdle) x IP stack; all interleavings within the deviation budgets; oracle = monitor on the arguments of EVERY factory call against the ledger of live allocations at call time (assign: count on ENI + n <= cap, n <= batch; create: interfaces <= slots; unassign: not the primary, not held by a live pod; delete: not trunk/RDMA, no live address) plus the ack-time check that nothing handed out had been unassigned/deleted by the daemon")
 	pwRun(r, t, "C06", c06Scenarios(ev.Thorough()), "C06")
 }
 
